@@ -2072,7 +2072,9 @@ def serialize_node_into(
 
     for attr in from_.attributes.values():
         if not attr.is_ref():
-            serialize_attribute_into(node_proto.attribute.add(), from_=attr)  # type: ignore[arg-type]
+            serialize_attribute_into(  # type: ignore[arg-type]
+                node_proto.attribute.add(), from_=attr, model_ir_version=model_ir_version
+            )
         else:
             serialize_reference_attribute_into(node_proto.attribute.add(), from_=attr)  # type: ignore[arg-type]
     _serialize_node_multi_device_into(node_proto, from_, model_ir_version=model_ir_version)
@@ -2184,18 +2186,27 @@ def serialize_attribute(attribute: _protocols.AttributeProtocol) -> onnx.Attribu
     return attribute_proto
 
 
-@_capture_errors(lambda attribute_proto, from_: repr(from_))
+@_capture_errors(lambda attribute_proto, from_, model_ir_version=None: repr(from_))
 def serialize_attribute_into(
-    attribute_proto: onnx.AttributeProto, from_: _protocols.AttributeProtocol
+    attribute_proto: onnx.AttributeProto,
+    from_: _protocols.AttributeProtocol,
+    *,
+    model_ir_version: int | None = None,
 ) -> None:
     attribute_proto.name = from_.name
     if from_.doc_string:
         attribute_proto.doc_string = from_.doc_string
-    _fill_in_value_for_attribute(attribute_proto, from_.type, from_.value)
+    _fill_in_value_for_attribute(
+        attribute_proto, from_.type, from_.value, model_ir_version=model_ir_version
+    )
 
 
 def _fill_in_value_for_attribute(
-    attribute_proto: onnx.AttributeProto, type_: _enums.AttributeType, value: Any
+    attribute_proto: onnx.AttributeProto,
+    type_: _enums.AttributeType,
+    value: Any,
+    *,
+    model_ir_version: int | None = None,
 ) -> None:
     if type_ == _enums.AttributeType.INT:
         # value: int
@@ -2238,7 +2249,8 @@ def _fill_in_value_for_attribute(
         attribute_proto.type = onnx.AttributeProto.TENSOR
     elif type_ == _enums.AttributeType.GRAPH:
         # value: _protocols.GraphProtocol
-        serialize_graph_into(attribute_proto.g, value)
+        # Nodes of a subgraph follow the same IR-version rules as the nodes of the main graph
+        serialize_graph_into(attribute_proto.g, value, model_ir_version=model_ir_version)
         attribute_proto.type = onnx.AttributeProto.GRAPH
     elif type_ == _enums.AttributeType.TENSORS:
         # value: Sequence[_protocols.TensorProtocol]
@@ -2248,7 +2260,9 @@ def _fill_in_value_for_attribute(
     elif type_ == _enums.AttributeType.GRAPHS:
         # value: Sequence[_protocols.GraphProtocol]
         for graph in value:
-            serialize_graph_into(attribute_proto.graphs.add(), graph)
+            serialize_graph_into(
+                attribute_proto.graphs.add(), graph, model_ir_version=model_ir_version
+            )
         attribute_proto.type = onnx.AttributeProto.GRAPHS
     elif type_ == _enums.AttributeType.SPARSE_TENSOR:
         raise NotImplementedError(
